@@ -342,14 +342,63 @@ fn parse_meta(c: &mut Cur) -> Option<MetadataMap> {
     Some(m)
 }
 
-fn build_set(c: &mut Cur, style_add: bool) -> Option<ErrorDetails> {
+/// `style`: 0 = `set_*`, 1 = `add_*` per violation/link, 2 = the first present detail goes through the
+/// `ErrorDetails::with_*` constructor (the single-violation form when it has exactly one element), the rest `set_*`.
+fn build_set(c: &mut Cur, style: u8) -> Option<ErrorDetails> {
+    let style_add = style == 1;
     let mut d = ErrorDetails::new();
+    let mut first = style == 2;
     for slot_ix in 0..10 {
         if c.peek()? == "-" {
             c.next();
             continue;
         }
         let det = parse_detail(c)?;
+        if first {
+            first = false;
+            d = match det {
+                ErrorDetail::RetryInfo(x) => ErrorDetails::with_retry_info(x.retry_delay),
+                ErrorDetail::DebugInfo(x) => ErrorDetails::with_debug_info(x.stack_entries, x.detail),
+                ErrorDetail::QuotaFailure(mut x) => {
+                    if x.violations.len() == 1 {
+                        let v = x.violations.pop().unwrap();
+                        ErrorDetails::with_quota_failure_violation(v.subject, v.description)
+                    } else {
+                        ErrorDetails::with_quota_failure(x.violations)
+                    }
+                }
+                ErrorDetail::ErrorInfo(x) => ErrorDetails::with_error_info(x.reason, x.domain, x.metadata),
+                ErrorDetail::PreconditionFailure(mut x) => {
+                    if x.violations.len() == 1 {
+                        let v = x.violations.pop().unwrap();
+                        ErrorDetails::with_precondition_failure_violation(v.r#type, v.subject, v.description)
+                    } else {
+                        ErrorDetails::with_precondition_failure(x.violations)
+                    }
+                }
+                ErrorDetail::BadRequest(mut x) => {
+                    if x.field_violations.len() == 1 {
+                        let v = x.field_violations.pop().unwrap();
+                        ErrorDetails::with_bad_request_violation(v.field, v.description)
+                    } else {
+                        ErrorDetails::with_bad_request(x.field_violations)
+                    }
+                }
+                ErrorDetail::RequestInfo(x) => ErrorDetails::with_request_info(x.request_id, x.serving_data),
+                ErrorDetail::ResourceInfo(x) => ErrorDetails::with_resource_info(x.resource_type, x.resource_name, x.owner, x.description),
+                ErrorDetail::Help(mut x) => {
+                    if x.links.len() == 1 {
+                        let v = x.links.pop().unwrap();
+                        ErrorDetails::with_help_link(v.description, v.url)
+                    } else {
+                        ErrorDetails::with_help(x.links)
+                    }
+                }
+                ErrorDetail::LocalizedMessage(x) => ErrorDetails::with_localized_message(x.locale, x.message),
+                _ => return None,
+            };
+            continue;
+        }
         match (slot_ix, det) {
             (0, ErrorDetail::RetryInfo(x)) => {
                 d.set_retry_info(x.retry_delay);
@@ -437,7 +486,7 @@ fn build_status(case: &str) -> Option<Status> {
         "set" => {
             let style = c.next()?;
             let meta = parse_meta(&mut c)?;
-            let d = build_set(&mut c, style == "b1")?;
+            let d = build_set(&mut c, match style { "b1" => 1, "b2" => 2, _ => 0 })?;
             if !c.done() {
                 return None;
             }
@@ -648,7 +697,7 @@ fn gen_meta(rng: &mut Rng) -> String {
 fn gen_head(kind: &str, rng: &mut Rng) -> String {
     let code = if rng.chance(1, 5) { *rng.pick(&[0u64, 1, 2, 16]) } else { rng.below(17) };
     let msg = if rng.chance(1, 5) { String::new() } else { gen_string(rng) };
-    format!("{} {} {} b{} {}", kind, code, hs(&msg), rng.below(2), gen_meta(rng))
+    format!("{} {} {} b{} {}", kind, code, hs(&msg), rng.below(3), gen_meta(rng))
 }
 
 fn gen_vec_case(rng: &mut Rng) -> String {
@@ -675,12 +724,15 @@ fn gen_vec_case(rng: &mut Rng) -> String {
 
 fn gen_set_case(rng: &mut Rng) -> String {
     let mut s = gen_head("set", rng);
-    let mode = rng.below(6);
+    let mode = rng.below(8);
+    let single = rng.below(10) as usize;
     for k in 0..10 {
         let present = match mode {
             0 => true,
             1 => false,
             2 => k % 2 == 0,
+            // exactly one detail: with style b2 it is built by its `ErrorDetails::with_*` constructor
+            3 | 4 => k == single,
             _ => rng.chance(1, 2),
         };
         s.push(' ');
@@ -1127,6 +1179,20 @@ pub fn generate(tier: &str, rng: &mut Rng) -> Vec<String> {
     let ns = if thorough { 30000 } else { 1200 };
     for _ in 0..ns {
         out.push(gen_set_case(rng));
+    }
+    // every `ErrorDetails::with_*` constructor: sets holding exactly one detail, built in style b2
+    for k in 0..10 {
+        for _ in 0..(if thorough { 200 } else { 24 }) {
+            let head = gen_head("set", rng);
+            let mut t: Vec<String> = head.split(' ').map(|x| x.to_string()).collect();
+            t[3] = "b2".into();
+            let mut s = t.join(" ");
+            for j in 0..10 {
+                s.push(' ');
+                if j == k { s.push_str(&gen_detail(j, rng, true)); } else { s.push('-'); }
+            }
+            out.push(s);
+        }
     }
     // malformed
     out.extend(gen_structured_raw(rng, if thorough { 40000 } else { 1500 }));
